@@ -274,6 +274,67 @@ theorem crash_before_event_skips_counterexample :
     (runTraceF skipCfg (initF skipCfg 1) skipTrace).map (fun s => (s.b.main, outcome s.b, s.skipped, s.lostOuts, enabledF skipCfg s (.base (.wBegin 1))))
       = some (Phase.done, Outcome.ok [], true, [1], false) := crash_before_event_skips'
 
+/-! ### phase 5: the fault extension completed — deadlock-freedom, "a stuck state is done", nothing twice, for ANY number of crashes
+
+`FInv` (Lemmas): `_n_procs` = number of non-dead lineages, pill accounting, "out pill at `_n_procs` = 0", the event/first-lineage
+rule in its crash form (lineage 0 is `spawned`, or it crashed and its callback — which sets the event — is pending), "skipped ⇒
+the caller is in `finally`", and conservation of every output INCLUDING what dead processes held (`lostOuts`).  It is inductive
+for `stepF` without conservation of errors (which crashes break: finding C08-F5). -/
+
+/-- never hangs, with crashes: in every reachable state of the extended system (any budget of crashes, any schedule) in which the
+call has not returned, some step of the CODE is possible — not a further crash, not the caller giving up -/
+theorem deadlock_free_faults (c : Cfg) (hn : 0 < c.n) (f : Nat) (s : FState) (hr : ReachableF c f s) (hnd : s.b.main ≠ .done) :
+    ∃ a : Action, a ≠ .cAbandon ∧ enabledF c s (.base a) = true := deadlock_free_faults' c hn f s hr hnd
+
+/-- with `terminates_faults`: every schedule with crashes is finite, and one the code cannot extend has finished the call -/
+theorem reaches_done_faults (c : Cfg) (hn : 0 < c.n) (f : Nat) (tr : List ActionF) (s : FState)
+    (h : runTraceF c (initF c f) tr = some s)
+    (hstuck : ∀ a : Action, a ≠ .cAbandon → enabledF c s (.base a) = false) : s.b.main = .done :=
+  reaches_done_faults' c hn f tr s h hstuck
+
+/-- the same with the executable predicate the driver evaluates on every replayed killed-worker trace -/
+theorem stuck_done_faults (c : Cfg) (hn : 0 < c.n) (f : Nat) (s : FState) (hr : ReachableF c f s)
+    (hst : stuckF c s = true) : s.b.main = .done := stuck_done_faults' c hn f s hr hst
+
+/-- none duplicated, with crashes (also after errors / abandon): what the caller has been handed PLUS what dead processes held
+never exceeds the multiset of outputs — so a crash can lose outputs but never makes one appear twice -/
+theorem never_duplicated_faults (c : Cfg) (hn : 0 < c.n) (f : Nat) (s : FState) (hr : ReachableF c f s) (o : Nat) :
+    s.b.recv.count o + s.lostOuts.count o ≤ (allOuts c).count o := never_duplicated_faults' c hn f s hr o
+
+/-- conservation with crashes: every copy of an output is with the caller, in a queue, pending in a process, in an item not yet
+processed, drained — or was held by a process that died -/
+theorem outputs_accounted_faults (c : Cfg) (hn : 0 < c.n) (f : Nat) (s : FState) (hr : ReachableF c f s) (o : Nat) :
+    outTotal o s.b + s.lostOuts.count o = (allOuts c).count o := outputs_accounted_faults' c hn f s hr o
+
+/-- a run in which no crash HAPPENED (the budget is untouched) is a run of the base system, whatever the budget was -/
+theorem no_crash_refines (c : Cfg) (f : Nat) (s : FState) (hr : ReachableF c f s) (hb : s.budget = f) :
+    Reachable c s.b ∧ s.mainErr = false ∧ s.crashed = [] ∧ s.skipped = false := no_crash_refines' c f s hr hb
+
+/-- `exactly_once_faults_partial` as strong as it can be: the environment MAY crash processes (any budget `f`); if it did not in
+this run, the complete multiset is delivered.  The hypothesis `s.budget = f` cannot be dropped (`exactly_once_faults_counterexample`),
+nor replaced by "recv + lost = all" (`crash_strands_items_counterexample`). -/
+theorem exactly_once_nocrash_partial (c : Cfg) (hn : 0 < c.n) (f : Nat) (s : FState) (hr : ReachableF c f s) (hb : s.budget = f)
+    (hd : s.b.main = .done) (hab : s.b.abandoned = false) (hne : ∀ x ∈ c.items, x.err = none ∧ x.perr = none) :
+    ∃ outs, outcome s.b = .ok outs ∧ outs.Perm (allOuts c) := exactly_once_nocrash_partial' c hn f s hr hb hd hab hne
+
+theorem error_surfaces_nocrash_partial (c : Cfg) (hn : 0 < c.n) (f : Nat) (s : FState) (hr : ReachableF c f s) (hb : s.budget = f)
+    (hd : s.b.main = .done) (hab : s.b.abandoned = false) (x : ItemSpec) (hx : x ∈ c.items) (hxe : x.err ≠ none ∨ x.perr ≠ none) :
+    ∃ e outs, outcome s.b = .raised e outs ∧ e ∈ allErrs c := error_surfaces_nocrash_partial' c hn f s hr hb hd hab x hx hxe
+
+/-- with ONE process a crash also strands what is still queued: n = 1, m = 2, two items, the process dies holding item 0 — the call returns
+`[]` normally; output 1 was held by the dead process, output 2 was never produced (its item is drained from the in-queue), so
+"delivered + held by dead processes" is strictly less than all outputs: `never_duplicated_faults` cannot be an equality -/
+theorem crash_strands_items_counterexample :
+    (runTraceF strandCfg (initF strandCfg 1) strandTrace).map
+        (fun s => (s.b.main, outcome s.b, s.lostOuts, s.b.dropIn.length, stuckF strandCfg s))
+      = some (Phase.done, Outcome.ok [], [1], 1, true) ∧ allOuts strandCfg = [1, 2] := crash_strands_items'
+
+/-- non-vacuity of `stuck_done_faults` / `deadlock_free_faults`: right after the crash of the only process the state is reachable, not
+done, not stuck (the dead process' callback is the enabled step); the complete schedule ends stuck and done -/
+example :
+    (runTraceF strandCfg (initF strandCfg 1) (strandTrace.take 8)).map (fun s => (s.b.main, stuckF strandCfg s, enabledF strandCfg s (.base (.wCallback 0))))
+      = some (Phase.consuming, false, true) := by decide
+
 /-! ### phase 4: `read_wait=True` — `enabledR`/`stepR` (keys in the out-queue, processes that wait for the caller) -/
 
 /-- every run with `read_wait` (either value of the flag) is, after erasing the key steps, a run of the base system: the base part of
@@ -319,6 +380,34 @@ example :
       = some ([ROut.val 1, ROut.key 0], [0], false, true)
     ∧ (runTraceR rwCfg true (initR rwCfg) (rwTrace1 ++ rwTrace2)).map (fun s => (s.b.main, outcome s.b, s.routq, s.keyPending, s.keyWait))
       = some (Phase.done, Outcome.ok [1], [], [], []) := readwait_example'
+
+/-! ### phase 5: crash × `read_wait` — `enabledRF`/`stepRF` (a process dies while it waits for the caller) -/
+
+/-- never hangs (termination part): `muR` strictly decreases on every step of the combined system, the crash of a waiting process
+included (it leaves `keyWait`), whatever the crash budget … -/
+theorem variant_decreases_rf (c : Cfg) (rw : Bool) (s : RFState) (a : ActionRF) (h : enabledRF c s a = true) :
+    muR c (stepRF c rw s a).r < muR c s.r := muRF_decreases' c rw s a h
+
+/-- … so every schedule with `read_wait` and any number of crashes of waiting processes has at most `6·mu(init)` steps -/
+theorem terminates_rf (c : Cfg) (rw : Bool) (f : Nat) (tr : List ActionRF) (s : RFState)
+    (h : runTraceRF c rw (initRF c f) tr = some s) : tr.length ≤ 6 * mu c (init c) := terminates_rf' c rw f tr s h
+
+/-- a process that waits for the caller holds no output: conservation of every output survives its crash … -/
+theorem outputs_conserved_rf (c : Cfg) (rw : Bool) (f : Nat) (s : RFState) (hr : ReachableRF c rw f s) (o : Nat) :
+    outTotal o s.r.b = sumOver (fun x => x.outs.count o) c.items := outC_rf c rw f s hr o
+
+/-- … hence nothing is delivered twice, in every reachable state, with `read_wait` and crashes of waiting processes -/
+theorem never_duplicated_rf (c : Cfg) (rw : Bool) (f : Nat) (s : RFState) (hr : ReachableRF c rw f s) (o : Nat) :
+    s.r.b.recv.count o ≤ (allOuts c).count o := never_duplicated_rf' c rw f s hr o
+
+/-- non-vacuity: n = 1, m = 1, one item, `read_wait`: the process retires, writes its key and dies while waiting — its callback is
+no longer held back, sets `_main_err`, does NOT replace the lineage (un-poisoned though it was), `_n_procs` = 0, the pill follows
+the stale key; the caller reads the output, the key (`.set()` on an event nobody waits on), the pill: `ok [1]` -/
+example :
+    (runTraceRF rwCfg true (initRF rwCfg 1) (rfTrace.take (rwTrace1.length + 1))).map
+        (fun s => (s.mainErr, s.r.keyWait, s.crashedK, enabledRF rwCfg s (.r (.base (.wCallback 0))))) = some (false, [], [0], true)
+    ∧ (runTraceRF rwCfg true (initRF rwCfg 1) rfTrace).map (fun s => (s.mainErr, s.r.keyWait, s.r.b.nprocs, s.r.routq)) = some (true, [], 0, [])
+    ∧ (runTraceRF rwCfg true (initRF rwCfg 1) rfTrace).map (fun s => (s.r.b.main, outcome s.r.b, s.budget)) = some (Phase.done, Outcome.ok [1], 0) := crash_keywait_example'
 
 /-! ### phase 4: translator obligations — `Generated/C08Callback.lean` is re-extracted from coba/pipes/multiprocessing.py (Python `ast`)
 on every run; the model's steps are what the CURRENT source says (an edit of these expressions breaks one of these proofs) -/
